@@ -174,7 +174,7 @@ def coll_plan(pid, tier):
         return {"level": "model_checking", "jobs": jobs, "owns_crashes": False, "rule": RULE_COLL + "; Box: exhaustive conversion chains", "assumptions": COLL_ASSUME, "bounds": {"max_len": 4 if q else 6, "depth": 4 if q else 5, "box_chain_steps": 3 if q else 4}}
     if pid == "C14":
         jobs = [coll_job("string-vs-std", "str", 14, 3, 3, tier, 45), grid_job("decoder-grids", "decoders", 14, tier, budget=100)] if q else [coll_job("string-vs-std-4chars", "str", 14, 4, 4, tier, 900), grid_job("decoder-grids", "decoders", 14, tier, budget=3000), coll_job("string-vs-std-dbg", "str", 14, 3, 3, tier, 300, build="dbg")]
-        return {"level": "model_checking", "jobs": jobs, "owns_crashes": True, "rule": RULE_COLL + "; decoders: exhaustive grids (all byte strings of length <= 3 (thorough 4); class-alphabet strings to length 5 (thorough 7); UTF-16 unit classes to length 6)", "assumptions": COLL_ASSUME,
+        return {"level": "model_checking", "jobs": jobs, "owns_crashes": True, "rule": RULE_COLL + "; decoders: exhaustive grids (all byte strings of length <= 3 (thorough 4); class-alphabet strings to length 5 (thorough 7); UTF-16 unit classes to length 6; long inputs with every sequence at each offset around the 4/8/64 KiB marks; end-of-input grid: 0..=40 ASCII bytes + sequence + 0..=8 ASCII bytes)", "assumptions": COLL_ASSUME,
                 "bounds": {"max_chars": 3 if q else 4, "depth": 3 if q else 4, "byte_strings_len": 3 if q else 4, "class_strings_len": 5 if q else 7}, "build_profiles": ("release",) if q else ("release", "dbg")}
     if pid == "C16":
         jobs = [coll_job("vec-panic-points", "vec", 16, 2, 4, tier, 45, mode="faults"), coll_job("string-panic-points", "str", 16, 2, 4, tier, 30, mode="faults"), grid_job("box-drop-panics", "box", 16, tier), arena_job("arena-callback-panics", "panics", 16, 2, 0, 40, tier)]
